@@ -88,11 +88,13 @@ HARNESSES = [
     inv(4, 32, 1, "both", 300), inv(4, 32, 2, "both", 300), inv(4, 32, 4, "both", 400), inv(4, 32, 8, "both", 300),
     inv(4, 32768, 1, "thorough", 1800, ".real"), inv(4, 32768, 2, "thorough", 1800, ".real"),
     inv(4, 32768, 4, "thorough", 1800, ".real"), inv(4, 32768, 8, "thorough", 1800, ".real"),
-    inv(5, 48, 1, "thorough", 1800), inv(5, 48, 2, "thorough", 1800), inv(5, 48, 16, "thorough", 1800), inv(5, 48, 32, "thorough", 1800), inv(5, 48, 8, "thorough", 1800),
+    # whole-call step at NUM_CODES=5: only the lock-step and free-list clauses finish (685 s / 677 s); the count clause needs ~1160 s and the
+    # group clause has no verdict in 1800 s - those clauses are covered at 5 and 6 by iter.* below
+    inv(5, 48, 1, "thorough", 1800), inv(5, 48, 8, "thorough", 1800),
     # 2b. H02.iter: the same inductive claim cut to one loop iteration (reaches NUM_CODES = 6)
     iter_(4, 32, 15, "both", 300),
 ] + iter_aux(4, 32, "both") + iter_aux(6, 64, "both") + [
-    iter_(5, 48, 1, "thorough", 1800), iter_(5, 48, 2, "thorough", 1800), iter_(5, 48, 4, "thorough", 1800), iter_(5, 48, 8, "thorough", 1800),
+    iter_(5, 48, 1, "thorough", 600), iter_(5, 48, 2, "thorough", 900), iter_(5, 48, 4, "thorough", 900), iter_(5, 48, 8, "thorough", 600),
     iter_(6, 64, 1, "thorough", 1800), iter_(6, 64, 2, "thorough", 2700), iter_(6, 64, 4, "thorough", 2700), iter_(6, 64, 8, "thorough", 1800),
     dict(name="walk.n4", src="C02/inv.c", entry="harness_walk", defines=sc(4, 32) + ["WALK_HARNESS", "BITS_SPEC"],
          rename_defs=dict(BITS, **{"lib/lh1_decoder.c": ["increment_for_code"]}), unwind=9, unwindset={"read_code.0": 4, "harness_walk.1": 4}, timeout=120,
